@@ -33,21 +33,6 @@ class H(Hooks):
             return ("sym", "EXTNAME")
         return NotImplemented
 
-    def call(self, p, args, e):
-        n = p.split("::")[-1]
-        if n == "disas_operands" and len(args) == 1:
-            return ("sym", "OPERANDS")
-        if n == "disas_join" and len(args) == 2:
-            return ("joined", args[0], args[1])
-        if n == "disas_instruction" and len(args) == 3:
-            clo = args[2]
-            body = None
-            if isinstance(clo, tuple) and clo[0] == "closure":
-                ev = SymEval(self, "closure")
-                body = ev.apply(clo, [("list", self.operands)])
-            return ("instr", args[0], args[1], body)
-        return NotImplemented
-
     def mcall(self, recv, m, args, e, ev):
         if recv == ("inst",) and m == "disassemble":
             return ("generic",)
@@ -61,36 +46,49 @@ class H(Hooks):
         return NotImplemented
 
 
-def line_format(ctx, rid, rtype):
-    f = ctx.rspirv.fn(DIS, "disas_instruction")
-    ps = [p[0] for p in f["sig"]["params"]]
-    ev = SymEval(H(rid, rtype), "disas_instruction")
-    r = ev.run(f, {ps[0]: ("inst",), ps[1]: ("sym", "SPACE"), ps[2]: ("fn", "disas_operands")})
-    return flatten_fmt(r)
+def pieces(v):
+    from .walkx import pieces as _p
+    return _p(v)
 
 
-def expected_line(rid, rtype):
+def operand_values(n):
+    return [("enum", "Operand::IdRef", [("sym", "X%d" % i)]) for i in range(n)]
+
+
+def line(ctx, rid, rtype, noperands):
+    """text pieces of <Instruction as Disassemble>::disassemble for an instruction with / without result id and type and n operands
+    (the helpers it is written in terms of are evaluated in place)"""
+    f = ctx.rspirv.fn(DIS, "disassemble", "Instruction", "Disassemble")
+    ops = operand_values(noperands)
+    ev = SymEval(H(rid, rtype, operands=ops, self_is_inst=True), "Instruction::disassemble")
+    return pieces(ev.run(f, {}))
+
+
+def expected_line(rid, rtype, ops, rendered=None):
+    """`%id = ` if there is a result id, `Op`name, two spaces `%type` and a space if there is a result type (the space only with
+    operands), a space and the operands joined by single spaces (only with operands)"""
     out = []
     if rid:
-        out += ["%", (("sym", "RID"), ""), " = "]
-    out += ["Op", (("sym", "OPNAME"), "")]
+        out += ["%", ("sym", "RID"), " = "]
+    out += ["Op", ("sym", "OPNAME")]
+    sp = " " if ops else ""
     if rtype:
-        out += ["  %", (("sym", "RTYPE"), ""), (("sym", "SPACE"), "")]
-    out += [(("sym", "SPACE"), ""), (("sym", "OPERANDS"), "")]
+        out += ["  %", ("sym", "RTYPE"), sp]
+    out += [sp]
+    items = rendered if rendered is not None else [("dis", o) for o in ops]
+    for i, o in enumerate(items):
+        if i:
+            out.append(" ")
+        out.append(o)
     merged = []
-    for p in out:
-        if isinstance(p, str) and merged and isinstance(merged[-1], str):
-            merged[-1] += p
+    for p_ in out:
+        if p_ == "":
+            continue
+        if isinstance(p_, str) and merged and isinstance(merged[-1], str):
+            merged[-1] += p_
         else:
-            merged.append(p)
+            merged.append(p_)
     return merged
-
-
-def inst_disassemble(ctx, noperands):
-    f = ctx.rspirv.fn(DIS, "disassemble", "Instruction", "Disassemble")
-    ops = [("enum", "Operand::IdRef", [("sym", "X%d" % i)]) for i in range(noperands)]
-    ev = SymEval(H(operands=ops, self_is_inst=True), "Instruction::disassemble")
-    return ev.run(f, {}), ops
 
 
 def ext_inst(ctx, kinds, have, resolved):
@@ -164,6 +162,11 @@ class CH(H):
         H.__init__(self, rid=True, rtype=rtype, operands=[operand] if operand is not None else [])
         self.resolved = resolved
 
+    def field(self, base, name, e):
+        if base == ("inst",) and name == "result_type" and self.rtype:
+            return ("some", ("sym", "RTYPE"))
+        return H.field(self, base, name, e)
+
     def mcall(self, recv, m, args, e, ev):
         if recv == ("typetracker",) and m == "resolve" and len(args) == 1:
             return ("some", ("sym", "TYPE")) if self.resolved else NONE
@@ -172,13 +175,14 @@ class CH(H):
     def call(self, p, args, e):
         if p.split("::")[-1] in ("disas_literal_bit_operand", "disas_literal_bit") and len(args) == 2:
             return ("litbit", args[0], args[1])
-        if p.split("::")[-1] == "disas_instruction" and len(args) == 3:
-            clo = args[2]
-            body = None
-            if isinstance(clo, tuple) and clo[0] == "closure":
-                body = SymEval(self, "closure").apply(clo, [("list", self.operands)])
-            return ("instr", args[0], args[1], body)
-        return H.call(self, p, args, e)
+        return NotImplemented
+
+    def mcall(self, recv, m, args, e, ev):
+        if recv == ("typetracker",) and m == "resolve" and len(args) == 1:
+            return ("some", ("sym", "TYPE")) if self.resolved else NONE
+        if m == "disas_literal_bit" and len(args) == 1:
+            return ("litbit", recv, args[0])
+        return H.mcall(self, recv, m, args, e, ev)
 
 
 def constant(ctx, rtype, resolved, operand):
